@@ -99,6 +99,9 @@ SPECS["C14"] = {
         for k in (2, 3, 4)
     ]
     + [
+        {"name": "H4-failing-groups", "pkg": "interpreter", "files": ["interpreter/c14.go", "interpreter/c07.go", "interpreter/common.go"], "fn": "VerifC14FailingGroups",
+         "what": "two groups out of 7 (4 failing at run time, 1 at parse time, 2 succeeding): value text or inline error marker per group", "reach": ["before-eval", "after-eval"],
+         "quick": {"unwind": 60, "wall_s": 600}, "thorough": {"unwind": 60, "wall_s": 600}},
         {"name": "H3-nested", "pkg": "interpreter", "files": ["interpreter/c14.go", "interpreter/c07.go", "interpreter/common.go"], "fn": "VerifC14Nested",
          "what": "a literal whose groups evaluate the same literal again (recursive function, depth 0..3) and other literals", "reach": ["before-eval", "after-eval"],
          "quick": {"params": {"DEPTH": 3}, "unwind": 60, "wall_s": 600, "max_steps": 5000000}, "thorough": {"params": {"DEPTH": 4}, "unwind": 60, "wall_s": 1500, "max_steps": 20000000}},
@@ -533,7 +536,7 @@ SPECS["C08"] = {
          "what": "33 lenient source forms (optional/dangling separators, parentheses, one-line blocks) and all except-clause shapes (0..2 names x comma/blank x 4 binders)", "reach": ["parsed", "reparsed"],
          "quick": {"unwind": 60, "wall_s": 900}, "thorough": {"unwind": 60, "wall_s": 1800}},
         {"name": "H6-comments", "pkg": "parser", "files": ["parser/c08.go"], "fn": "VerifC08Comments",
-         "what": "12 statement kinds x a comment of 7 forms (or a bare line break) inserted at every token boundary", "reach": ["parsed", "reparsed"],
+         "what": "12 statement kinds x a comment of 9 forms (or a bare line break) inserted at every token boundary", "reach": ["parsed", "reparsed"],
          "quick": {"unwind": 60, "wall_s": 900}, "thorough": {"unwind": 60, "wall_s": 1800}},
         {"name": "H5-format-files", "pkg": "cli/tool", "files": ["tool/memfs.go", "tool/c08.go"], "fn": "VerifC08FormatFiles",
          "what": "the real FormatFiles (filepath.Walk, ReadFile, Parse, PrettyPrint, WriteFile - all real code) over an in-memory directory tree: padded ECAL file (formatted text shorter / equal / longer than the original), second file, unparsable file, other extension; run twice",
@@ -634,7 +637,7 @@ SPECS["C04"] = {
     "harnesses": [
         {"name": "H1-try-in-loop", "pkg": "interpreter", "files": _C04, "fn": "VerifC04TryInLoop",
          "what": "try/except/otherwise/finally shapes x exits", "reach": ["evaluated"],
-         "quick": {"unwind": 60, "wall_s": 900}, "thorough": {"unwind": 60, "wall_s": 3000}},
+         "quick": {"unwind": 60, "wall_s": 900, "max_steps": 2000000}, "thorough": {"unwind": 60, "wall_s": 3000, "max_steps": 2000000}},
         {"name": "H2-loops", "pkg": "interpreter", "files": _C04, "fn": "VerifC04Loops",
          "what": "range/list/map/condition loops, nested break/continue", "reach": ["evaluated"],
          "quick": {"unwind": 60, "wall_s": 600, "max_steps": 3000000}, "thorough": {"unwind": 60, "wall_s": 3000, "max_steps": 3000000}},
@@ -666,7 +669,7 @@ SPECS["C05"] = {
          "what": "7 container templates", "reach": ["evaluated"],
          "quick": {"unwind": 60, "wall_s": 900}, "thorough": {"unwind": 60, "wall_s": 3000}},
         {"name": "H2-scoping", "pkg": "interpreter", "files": _C05, "fn": "VerifC05Scoping",
-         "what": "10 scoping/function templates", "reach": ["evaluated"],
+         "what": "15 scoping/function templates", "reach": ["evaluated"],
          "quick": {"unwind": 60, "wall_s": 900, "timeout_ms": 5000}, "thorough": {"unwind": 60, "wall_s": 3000}},
         {"name": "H3-builtins", "pkg": "interpreter", "files": _C05, "fn": "VerifC05Builtins",
          "what": "add/del/concat/len vs slice model", "reach": ["evaluated"],
